@@ -1,6 +1,7 @@
 package system
 
 import (
+	"io/fs"
 	"errors"
 	"net"
 	"os"
@@ -22,8 +23,14 @@ func zzStub_os_ReadFile(name string) ([]byte, error) {
 	return zzReadData, zzReadErr
 }
 
+// zzWriteErr: what the next os.WriteFile returns (the kernel's answer).
+var zzWriteErr error
+
 func zzStub_os_WriteFile(name string, data []byte, perm os.FileMode) error {
 	zzWritePath, zzWriteData = name, data
+	if zzWriteErr != nil {
+		return &fs.PathError{Op: "open", Path: name, Err: zzWriteErr}
+	}
 	return nil
 }
 
